@@ -69,6 +69,7 @@ EXC_BASE = {
     "FileNotFoundError": "OSError", "RuntimeError": "Exception",
     "NotImplementedError": "RuntimeError", "TypeError": "Exception",
     "ValueError": "Exception", "Foreign": "Exception",
+    "ForeignBase": "BaseException",
     "DatasetExistsError": "Exception", "queue.Empty": "Exception",
     "Empty": "Exception", "UnboundLocalError": "Exception",
 }
